@@ -279,6 +279,13 @@ class Rewriter:
                 self.count("R5 map %s: /%s/ => %s" % (what, rx.pattern, repl), n)
         return text
 
+    def closure_wildcards(self, text):
+        """R15: closure parameter `_` -> a named, unused variable (Verus restriction)"""
+        text, n = re.subn(r"\|\s*_\s*\|", "|_vx_unused|", text)
+        if n:
+            self.count("R15 closure param `_` named", n)
+        return text
+
     def drop_use_lines(self, text):
         def f(m):
             self.count("R9 use line dropped")
@@ -605,6 +612,7 @@ class Unit:
         body = rw.cfg_select(body)
         body = rw.attrs(body)
         body = rw.drop_use_lines(body)
+        body = rw.closure_wildcards(body)
         body = rw.debug_guards(body)
         body = rw.macros(body)
         body = rw.tag_literals(body)
